@@ -77,6 +77,69 @@ def rowd0_hint(has):
     return "GROUP HINT" if has else None
 
 
+def table_list_obligations(ctx, rule, rid, w2j, loop, g, events):
+    """A group / repeat row with the table-list appearance: the keyword is replaced by field-list (other modifiers kept,
+    after it), and the row's label AND hint move onto one generated note that becomes the group's first child - for
+    every appearance spelling and every presence pattern of label and hint."""
+    from ..rowloop import dependency_slice
+    l_nodes = [g.nodes[nid].stmt for nid, ev in events.items() if ev == "L"]
+    kw_nodes = [n for n in ast.walk(loop) if (isinstance(n, ast.Attribute) and n.attr == "TABLE_LIST") or (isinstance(n, ast.Constant) and n.value == "table-list")]
+    if len(l_nodes) != 1 or not kw_nodes:
+        rule.fail("row loop:table-list block", f"one helper-note append ({len(l_nodes)}) and the table-list keyword ({len(kw_nodes)}) are found in the loop", w2j.loc(loop))
+        return
+
+    def role(nm):
+        low = nm.lower()
+        if "number" in low:
+            return "int"
+        if "child" in low:
+            return "list"
+        if "json_dict" in low or low in ("row", "new_dict"):
+            return "row"
+        if low == "table_list":
+            return "flag"
+        return None
+    stmts = dependency_slice(w2j, loop, [*l_nodes, *kw_nodes[:1]], lambda nm: role(nm) is not None)
+    free = {n.id for st in stmts for n in ast.walk(st) if isinstance(n, ast.Name) and isinstance(n.ctx, ast.Load)}
+    cases = [("table-list", "field-list"), ("table-list compact", "field-list compact"), ("minimal table-list", "field-list minimal"), ("field-list", "field-list"), (None, None), ("compact", "compact")]
+    for app, want_app in cases:
+        for has_label, has_hint in ((True, True), (True, False), (False, True), (False, False)):
+            if app != "table-list" and not (has_label and has_hint):
+                continue
+            rowd = {"name": "g", "type": "group"}
+            if app is not None:
+                rowd["control"] = {"appearance": app}
+            if has_label:
+                rowd["label"] = "GROUP LABEL"
+            if has_hint:
+                rowd["hint"] = "GROUP HINT"
+            kids = []
+            env = {nm: {"int": 7, "list": kids, "row": rowd, "flag": None}[role(nm)] for nm in free if role(nm) is not None}
+            itb = ctx.interp(rid)
+            itb.reset([])
+            desc = f"appearance={app!r} label={'yes' if has_label else 'no'} hint={'yes' if has_hint else 'no'}"
+            try:
+                itb.exec_block(stmts, env, w2j.module)
+            except Raised as e:
+                rule.fail(f"row loop:table-list[{desc}]", f"the block evaluates (raises {e.exc_name}{e.exc_args})", w2j.loc(stmts[0]))
+                continue
+            got_app = (rowd.get("control") or {}).get("appearance")
+            is_tl = app is not None and "table-list" in app.split()
+            ok = got_app == want_app
+            why = f"appearance becomes {got_app!r}"
+            if is_tl and (has_label or has_hint):
+                h = kids[0] if len(kids) == 1 and isinstance(kids[0], dict) else {}
+                ok = ok and h.get("type") == "note" and str(h.get("name", "")).startswith("generated_table_list_label_") and h.get("label") == rowd0_label(has_label) \
+                    and h.get("hint") == rowd0_hint(has_hint) and "label" not in rowd and "hint" not in rowd
+                why += f"; children={kids!r}; group row keeps {sorted(k for k in ('label', 'hint') if k in rowd)}"
+            else:
+                ok = ok and kids == [] and ("label" in rowd) == has_label and ("hint" in rowd) == has_hint
+                why += f"; children={kids!r}"
+            rule.check(ok, f"row loop:table-list[{desc}]",
+                       (f"appearance -> {want_app!r}; " + ("one generated note carries the group's label and hint, which leave the group row" if is_tl and (has_label or has_hint) else "no helper note, label and hint stay")),
+                       w2j.loc(stmts[0]), why_fail=why)
+
+
 def run(ctx):
     repo = ctx.repo
     it0 = ctx.consts.interp
@@ -148,54 +211,19 @@ def run(ctx):
                 got = f"raises {e.exc_name}"
             r1.check(got is want, f"row loop:count helper guard[{text!r}]", f"a `<repeat>_count` node is {'created' if want else 'not needed'} for this repeat_count cell", w2j.loc(st),
                      why_fail=f"guard `{norm(guard)[:60]}` evaluates to {got}")
-    # the table-list label helper: the group's label AND hint move onto a generated note placed first in the group, for
-    # every presence pattern of the two cells (the statement that builds the helper is evaluated as a block)
-    for nid, ev in events.items():
-        if ev != "L":
-            continue
-        st = g.nodes[nid].stmt
-        blk = next((a for a in ancestors(st) if isinstance(a, ast.If) and a is not loop and any(("label" in norm(t).lower() or "hint" in norm(t).lower()) for t in [a.test])), None)
-        if blk is None:
-            r1.fail("row loop:table-list label helper", "the helper is created under a test of the group's label / hint", w2j.loc(st))
-            continue
-        loads = {n.id for n in ast.walk(blk) if isinstance(n, ast.Name) and isinstance(n.ctx, ast.Load)}
-        stores = {n.id for n in ast.walk(blk) if isinstance(n, ast.Name) and isinstance(n.ctx, ast.Store)}
-        free = {n for n in loads if n not in stores and w2j.module.imports.get(n) is None and n not in w2j.module.functions and n not in w2j.module.assigns and n not in ("str", "len", "dict", "list")}
-        lists = {c.func.value.id for c in ast.walk(blk) if isinstance(c, ast.Call) and isinstance(c.func, ast.Attribute) and c.func.attr in ("append", "insert") and isinstance(c.func.value, ast.Name)}
-        for has_label, has_hint in ((True, False), (False, True), (True, True), (False, False)):
-            rowd = {"name": "g", "type": "group", "control": {"appearance": "field-list"}}
-            if has_label:
-                rowd["label"] = "GROUP LABEL"
-            if has_hint:
-                rowd["hint"] = "GROUP HINT"
-            kids = []
-            env = {}
-            for nm in free:
-                env[nm] = kids if nm in lists else (7 if "number" in nm or nm in ("i", "idx") else rowd)
-            itb = ctx.interp("C04.R1")
-            itb.reset([])
-            try:
-                itb.exec_block([blk], env, w2j.module)
-                err = None
-            except Raised as e:
-                err = f"raises {e.exc_name}{e.exc_args}"
-            desc = f"label={'yes' if has_label else 'no'} hint={'yes' if has_hint else 'no'}"
-            if err:
-                r1.fail(f"row loop:table-list label helper[{desc}]", f"the helper block evaluates ({err})", w2j.loc(blk))
-                continue
-            if has_label or has_hint:
-                h = kids[0] if len(kids) == 1 and isinstance(kids[0], dict) else {}
-                ok = h.get("type") == "note" and str(h.get("name", "")).startswith("generated_table_list_label_") \
-                    and h.get("label") == rowd0_label(has_label) and h.get("hint") == rowd0_hint(has_hint) and "label" not in rowd and "hint" not in rowd
-                r1.check(ok, f"row loop:table-list label helper[{desc}]", "one generated note carries the group's label and hint, which leave the group row", w2j.loc(blk),
-                         why_fail=f"children={kids!r} group row keeps {sorted(k for k in ('label', 'hint') if k in rowd)}")
-            else:
-                r1.check(kids == [], f"row loop:table-list label helper[{desc}]", "no helper note without label and hint", w2j.loc(blk), why_fail=f"children={kids!r}")
+    # the table-list block (appearance rewrite + label helper), evaluated as a dependency slice of the loop body: the
+    # statements that mention the table-list keyword and build the helper note, plus the assignments they depend on
+    table_list_obligations(ctx, r1, "C04.R1", w2j, loop, g, events)
     from ..rowloop import row_prologue_obligations
     row_prologue_obligations(ctx, r1, "C04.R1")
     # disabled rows produce nothing - also the second time the same dict is converted (rows handed to the loop are copies)
     from .c14 import fresh_rows_obligations
     fresh_rows_obligations(ctx, r1, "C04.R1")
+    prologue_stmts = []
+    for st_ in loop.body:
+        if any(isinstance(n_, ast.Name) and isinstance(n_.ctx, ast.Store) and n_.id == "parameters" for n_ in ast.walk(st_)):
+            break
+        prologue_stmts.append(st_)
     allowed = {("R",), ("M",), ("C", "R"), ("L", "R"), ("C", "L", "R"), ("H", "R"), ("R", "O"), ("H", "R", "O")}
     skip_markers = ("aliases.yes_no.get(disabled)", "not row", "not (constants.NAME in row or constants.LABEL in row)", "settings_type", "end_control_parse")
     # per exit edge
@@ -215,6 +243,10 @@ def run(ctx):
             r1.check(nonempty <= allowed, key, f"append sequence at this exit is one of the documented shapes", where,
                      why_fail=f"sequences {sorted(nonempty - allowed)}")
             if () in seqs:
+                if node.stmt is not None and any(node.stmt is d_ or any(node.stmt is y_ for y_ in ast.walk(d_)) for d_ in prologue_stmts):
+                    # exits of the row prologue are decided by evaluation (row_prologue_obligations above)
+                    r1.ok(key + ":skip", "exit of the row prologue: which rows leave here is decided by the evaluated prologue shapes", where)
+                    continue
                 gts = " && ".join(guard_texts(node.stmt, stop=loop))
                 r1.check(any(m in gts for m in skip_markers), key + ":skip", "a row produces nothing only on a documented skip path (disabled, empty, comment, settings-on-survey, end control)",
                          where, why_fail=f"guards: {gts[:120]}")
@@ -269,10 +301,21 @@ def run(ctx):
         r2.check(bool(clears) and g.must_pass(nid, g.exit, clears, skip_labels=frozenset({"exc"})), "row loop:table-list cleared on end",
                  "every end-control path clears the table-list state before the next row", w2j.loc(c))
     head = [x for x in loop.body[:3] if isinstance(x, ast.If)]
-    top = [x for x in walk_own(loop) if isinstance(x, ast.Assign) and isinstance(x.targets[0], ast.Name) and x.targets[0].id == "parent_children_array"
-           and norm(x.value) == "stack[-1]['parent_children']"]
-    r2.check(bool(top) and top[0].lineno < min((g.nodes[n].stmt.lineno for n in events), default=10 ** 9), "row loop:current parent",
-             "rows are appended to the top frame's children list, read at the start of every iteration", w2j.loc(loop))
+    # the list rows are appended to is (re)read from the top frame on every path from the top of the iteration to an append
+    from ..astutil import subst_locals
+    pca_nodes, pca_from_top = set(), False
+    for nid_, n_ in g.nodes.items():
+        x = n_.stmt
+        if isinstance(x, ast.Assign) and len(x.targets) == 1 and isinstance(x.targets[0], ast.Name) and x.targets[0].id == "parent_children_array":
+            val = norm(subst_locals(x.value, loop, depth=3))
+            if val == "stack[-1]['parent_children']":
+                pca_nodes.add(nid_)
+                pca_from_top = True
+            elif val == "[]":
+                pca_nodes.add(nid_)
+    ok_top = pca_from_top and all(g.must_pass(g.entry, nid_, pca_nodes) for nid_ in events if g.nodes[nid_].stmt is not None and "parent_children_array" in norm(g.nodes[nid_].stmt))
+    r2.check(ok_top, "row loop:current parent", "rows are appended to the top frame's children list, read at the start of every iteration", w2j.loc(loop),
+             why_fail=f"assignments from the top frame: {len(pca_nodes)}")
     gf = cfgmod.build(w2j.node.body)
     rets = [nid for nid, n in gf.nodes.items() if isinstance(n.stmt, ast.Return)]
     unb = [nid for nid, n in gf.nodes.items() if n.kind == "test" and norm(n.stmt) == "len(stack) != 1"]
@@ -474,10 +517,7 @@ def run(ctx):
     rq = repo.cls("pyxform.question:RangeQuestion").methods["build_xml"]
     r6.check(any(isinstance(c, ast.Call) and call_name(c) == "setAttribute" for c in walk_own(rq.node)) and "self.parameters" in norm(rq.node) or "params" in norm(rq.node),
              "consumed:range", "range start/end/step are written as control attributes", rq.loc())
-    # table-list -> field-list + list-nolabel
-    fl = [x for x in walk_own(loop) if isinstance(x, ast.Assign) and isinstance(x.targets[0], ast.Name) and x.targets[0].id == "appearance_string" and const_str(ctx, w2j.module, x.value) == (True, "field-list")]
-    r6.check(bool(fl) and any("constants.TABLE_LIST in appearance_mods_as_list" in t for t in guard_texts(fl[0], stop=loop)), "table-list:field-list",
-             "a table-list group becomes a field-list group", w2j.loc(loop))
+    # table-list -> field-list is evaluated in C04.R1 (table_list_obligations); selects inside get list-nolabel
     nl = [x for x in walk_own(loop) if isinstance(x, ast.Assign) and norm(x.value) == "constants.LIST_NOLABEL"]
     r6.check(bool(nl) and any("table_list is not None" in t for t in guard_texts(nl[0], stop=loop)), "table-list:list-nolabel",
              "selects inside a table-list get the list-nolabel appearance", w2j.loc(loop))
